@@ -570,7 +570,7 @@ class Fxp():
                 int_dtype = np.uint64
 
             # find fractional parts
-            frac_vals = np.abs(val%1).ravel()
+            frac_vals = (np.abs(val)%1).ravel()   # (the remainder of a negative value would be the rounded complement of its fractional part)
 
             # n_frac estimation
             if n_frac is None:
